@@ -284,14 +284,17 @@ class World:
             self.open_files.append(f)
             return f
         p = self.resolve(path)
+        self.sched.step("read")  # preemption point BEFORE the existence check (the primitive is atomic)
         if p in self.dirs:
-            self.access("read-failed", path, p)  # open() of a directory: nothing is read
+            self.log.append(("read-failed", path, p))  # open() of a directory: nothing is read
             raise IsADirectoryError(errno.EISDIR, "Is a directory", path)
         if p not in self.files:
-            self.access("read-failed", path, p)
+            self.log.append(("read-failed", path, p))
             raise FileNotFoundError(errno.ENOENT, "No such file or directory", path)
-        self.access("read", path, p)
-        return MFile(self, path, p, binary, False)
+        self.log.append(("read", path, p))
+        f = MFile(self, path, p, binary, False)
+        f.snapshot = self.files[p]  # an open file keeps its inode: later unlink / replace do not affect the reader
+        return f
 
     # -- snapshot (oracle side) ---------------------------------------------------------------------
     def snapshot(self):
@@ -352,7 +355,9 @@ class MFile:
             self.write(c)
 
     def read(self, *a):
-        data = self.w.files[self.p]
+        data = getattr(self, "snapshot", None)
+        if data is None:
+            data = self.w.files[self.p]
         if self.binary:
             return data
         # text mode: universal newlines
